@@ -194,6 +194,15 @@ struct Exec
         out.v.op = opi;
         out.v.detail = detail;
     }
+    // The new object is derived from open instance `from` and shares it.  (A copy that calls dlopen
+    // again would be balanced under a reference-counting loader, but the property is explicit: the
+    // library is closed exactly once, after the last object derived from that open is gone - so an
+    // extra dlopen/dlclose pair per copy shows up as close-missing / close-early below.)
+    int attach(int from, int)
+    {
+        inst[static_cast<size_t>(from)].owners++;
+        return from;
+    }
     void drop_owner(int i)
     {
         if (i >= 0 && --inst[static_cast<size_t>(i)].owners == 0)
@@ -267,6 +276,14 @@ struct Exec
         bool executed = true;
         std::string arg = "-";
         Cat cat = C_OK;
+        int total_opens = 0;
+        for (int l = 0; l < NLIB; l++)
+            total_opens += g_ld.lib[l].opens;
+        // per-library count before the op (the ops below only look at the library they derive from)
+        int opens_before_lib[NLIB];
+        for (int l = 0; l < NLIB; l++)
+            opens_before_lib[l] = g_ld.lib[l].opens;
+        (void)total_opens;
         switch (op.kind)
         {
         case K_OPEN:
@@ -379,8 +396,7 @@ struct Exec
                 p_stale_then_ok++;
             last_lookup_failed = false;
             syms[y] = np;
-            sym_inst[y] = dl_inst[s];
-            inst[static_cast<size_t>(dl_inst[s])].owners++;
+            sym_inst[y] = attach(dl_inst[s], opens_before_lib[inst[static_cast<size_t>(dl_inst[s])].lib]);
             sym_lib[y] = inst[static_cast<size_t>(dl_inst[s])].lib;
             sym_null[y] = nm == 2;
             break;
@@ -406,8 +422,7 @@ struct Exec
             if (cat == C_OK)
             {
                 dls[s] = np;
-                dl_inst[s] = dl_inst[from];
-                inst[static_cast<size_t>(dl_inst[s])].owners++;
+                dl_inst[s] = attach(dl_inst[from], opens_before_lib[inst[static_cast<size_t>(dl_inst[from])].lib]);
             }
             else if (!(f.fired && cat == C_BADALLOC))
                 fail("C19/spurious-raise", op, opi, arg, "copying a library object raised");
@@ -436,8 +451,7 @@ struct Exec
             if (cat == C_OK)
             {
                 syms[y] = np;
-                sym_inst[y] = sym_inst[from];
-                inst[static_cast<size_t>(sym_inst[y])].owners++;
+                sym_inst[y] = attach(sym_inst[from], opens_before_lib[inst[static_cast<size_t>(sym_inst[from])].lib]);
                 sym_lib[y] = sym_lib[from];
                 sym_null[y] = sym_null[from];
             }
@@ -492,8 +506,7 @@ struct Exec
             if (cat == C_OK)
             {
                 holds[hh] = np;
-                hold_inst[hh] = dl_inst[s];
-                inst[static_cast<size_t>(dl_inst[s])].owners++;
+                hold_inst[hh] = attach(dl_inst[s], opens_before_lib[inst[static_cast<size_t>(dl_inst[s])].lib]);
             }
             else if (!(f.fired && cat == C_BADALLOC))
                 fail("C19/spurious-raise", op, opi, arg, "dl::get() raised");
@@ -819,7 +832,16 @@ public:
     Outcome execute(const Plan& plan, const Config&) override
     {
         Exec x;
-        return x.run(plan);
+        Outcome o = x.run(plan);
+        if (o.violated && o.v.sig.find("raw-storage") != std::string::npos)
+        {
+            // Blocks that were allocated inside the operations and are still there.  Memory that code
+            // allocates once and keeps (a function-local static, a lazily built table) is not a leak
+            // of these operations: it does not come back when the same history runs again.
+            Exec y;
+            return y.run(plan);
+        }
+        return o;
     }
 };
 } // namespace
